@@ -1005,6 +1005,23 @@ func (x *Exec) finishReturn(st *State, vals []Val) {
 		out[i] = st.vars[r]
 	}
 	rs := &retState{st: st, vals: out}
+	if !inl && x.dry == 0 && x.contract != nil && x.contract.Opts["own"] {
+		// every lock this function took is released (directly or by a deferred call) when it returns
+		var still []string
+		for k, v := range st.held {
+			if v && !strings.HasSuffix(k, "#w") {
+				still = append(still, k)
+			}
+		}
+		sort.Strings(still)
+		goal, what := "true", "no lock taken by this function is still held at this return"
+		if len(still) > 0 {
+			goal = "false"
+			what += " (still held: " + strings.Join(still, ", ") + ": every later Lock of it blocks forever)"
+		}
+		x.counts["lock.release"]++
+		x.assertNamed(st, fmt.Sprintf("lock.release.%d", x.counts["lock.release"]), "lock", goal, what, x.posn(x.curPos))
+	}
 	if !inl && x.dry == 0 {
 		// reachability probe for this return (informational: reported as UNREACHABLE when unsat)
 		x.counts["vacuity.ret"]++
